@@ -73,8 +73,11 @@ AvgDisc(t, g) ==
   ELSE [ok |-> FALSE, v |-> Zero]
 
 \* --------------------------------------------------------------- state
+\* tch ("touched"): has this infoset ever received a regret contribution with a non-zero weight?
+\* Until then its regrets are structural zeros (exactly zero in floating point too); afterwards a
+\* regret that is exactly zero here is rounding noise there - see Fragile.
 InitInfo(n) == [r |-> [j \in 1..n |-> Zero], s |-> [j \in 1..n |-> Zero],
-                cur |-> [j \in 1..n |-> Frac(1, n)]]
+                cur |-> [j \in 1..n |-> Frac(1, n)], tch |-> FALSE]
 InitState(t) == [p \in 1..2 |-> [i \in InfoNames(t, p) |-> InitInfo(NumActs(t, p, i))]]
 
 ZeroVec(n) == [j \in 1..n |-> Zero]
@@ -121,7 +124,7 @@ VContrib(n, st, sampled, dr, pc, pp) ==
            mult == IF n.pl = 1 THEN RMul(pc, oth) ELSE RNeg(RMul(pc, oth))
            u == [j \in 1..Len(n.kids) |-> VVal(n.kids[j].t, st, sampled, dr)]
            ex == Dot(cur, u)
-           me == [pl |-> n.pl, info |-> n.info,
+           me == [pl |-> n.pl, info |-> n.info, w |-> mult,
                   dr |-> [j \in 1..Len(u) |-> RMul(mult, RSub(u[j], ex))],
                   ds |-> [j \in 1..Len(u) |-> RMul(own, cur[j])]]
        IN <<me>> \o Concat([j \in 1..Len(n.kids) |->
@@ -150,10 +153,10 @@ EContrib(n, st, q, dr, half) ==
     LET cur == Cur(st, n)
         u == [j \in 1..Len(n.kids) |-> EVal(n.kids[j].t, st, q, dr, half)]
         ex == Dot(cur, u)
-        me == [pl |-> q, info |-> n.info, dr |-> [j \in 1..Len(u) |-> RSub(u[j], ex)],
+        me == [pl |-> q, info |-> n.info, w |-> One, dr |-> [j \in 1..Len(u) |-> RSub(u[j], ex)],
                ds |-> ZeroVec(Len(u))]
     IN <<me>> \o Concat([j \in 1..Len(n.kids) |-> EContrib(n.kids[j].t, st, q, dr, half)])
-  ELSE <<[pl |-> n.pl, info |-> n.info, dr |-> ZeroVec(Len(n.kids)), ds |-> Cur(st, n)]>>
+  ELSE <<[pl |-> n.pl, info |-> n.info, w |-> Zero, dr |-> ZeroVec(Len(n.kids)), ds |-> Cur(st, n)]>>
          \o EContrib(n.kids[PlayerDraw(n, st, dr)].t, st, q, dr, half)
 
 \* ---------------------------------------------------- applying a pass
@@ -164,15 +167,24 @@ SumField(cs, p, i, acc, f) ==
        IN SumField(Tail(cs), p, i,
                    IF c.pl = p /\ c.info = i THEN VAdd(acc, IF f = "dr" THEN c.dr ELSE c.ds) ELSE acc, f)
 
+TouchedBy(cs, p, i) == \E k \in 1..Len(cs) : cs[k].pl = p /\ cs[k].info = i /\ cs[k].w # Zero
 Apply(st, cs) ==
   [p \in 1..2 |-> [i \in DOMAIN st[p] |->
-     [st[p][i] EXCEPT !.r = SumField(cs, p, i, @, "dr"), !.s = SumField(cs, p, i, @, "ds")]]]
+     [st[p][i] EXCEPT !.r = SumField(cs, p, i, @, "dr"), !.s = SumField(cs, p, i, @, "ds"),
+                      !.tch = @ \/ TouchedBy(cs, p, i)]]]
+
 
 \* -------------------------------------------------------------- advance
 Positive(v) == {j \in 1..Len(v) : v[j][1] > 0}
 ArgMax(v) == {j \in 1..Len(v) : \A k \in 1..Len(v) : RLe(v[k], v[j])}
 ArgMin(v) == {j \in 1..Len(v) : \A k \in 1..Len(v) : RLe(v[j], v[k])}
 Indicator(n, j) == [k \in 1..n |-> IF k = j THEN One ELSE Zero]
+
+\* A decision of regret matching that exact arithmetic and floating point may take differently:
+\* no regret is positive, but one that was computed (not structurally zero) is exactly zero, so
+\* rounding noise of either sign decides between "proportional to the positive part" and the
+\* fallback.  The property does not pin such a case ("within rounding").
+Fragile(inf) == inf.tch /\ Positive(inf.r) = {} /\ \E j \in 1..Len(inf.r) : inf.r[j] = Zero
 
 \* the set of admissible next strategies (ties in the arg-max / arg-min fallback are free);
 \* {} stands for "softmax with a finite non-zero weight": symbolic, see MatchKind
@@ -217,6 +229,7 @@ AdvanceSym(inf, t, tavg, par) ==
    kind |-> MatchKind(inf.r, par.w),
    next |-> Match(inf.r, par.w),
    pre |-> inf.r,
+   fragile |-> Fragile(inf),
    t |-> t, tavg |-> tavg,
    bound |-> InfoBound(inf.r, t, par)]
 
@@ -239,7 +252,8 @@ AdvanceExact(inf, t, tavg, par) ==
             IF inf.r[j][1] > 0 THEN RMul(inf.r[j], Disc(t, par.a).v)
             ELSE IF inf.r[j][1] < 0 THEN RMul(inf.r[j], Disc(t, par.b).v) ELSE Zero],
    s |-> [j \in 1..Len(inf.s) |-> RMul(inf.s[j], AvgDisc(tavg, par.g).v)],
-   cur |-> PickMatch(inf, par)]
+   cur |-> PickMatch(inf, par),
+   tch |-> inf.tch]
 
 AdvancePlayer(st, p, t, tavg, par) ==
   [st EXCEPT ![p] = [i \in DOMAIN st[p] |-> AdvanceExact(st[p][i], t, tavg, par)]]
@@ -263,15 +277,16 @@ Iterate(tree, st, method, t, par, dr) ==
        IN AdvancePlayer(c, 2, t, t, par)
   ELSE AdvancePlayer(AdvancePlayer(StepPre(tree, st, method, dr), 1, t, t, par), 2, t, t, par)
 
-\* did some advance of this iteration have to break a tie (fragile for a comparison with floats)?
+\* did some advance of this iteration break a tie or take a fragile decision?
 IterTie(tree, st, method, t, par, dr) ==
   IF method = "External"
   THEN LET a == Apply(st, EContrib(tree, st, 1, dr, 1))
            b == AdvancePlayer(a, 1, t, t - 1, par)
            c == Apply(b, EContrib(tree, b, 2, dr, 2))
-       IN (\E i \in DOMAIN a[1] : Tie(a[1][i], par)) \/ (\E i \in DOMAIN c[2] : Tie(c[2][i], par))
+       IN (\E i \in DOMAIN a[1] : Tie(a[1][i], par) \/ Fragile(a[1][i]))
+            \/ (\E i \in DOMAIN c[2] : Tie(c[2][i], par) \/ Fragile(c[2][i]))
   ELSE LET a == StepPre(tree, st, method, dr)
-       IN \E p \in 1..2 : \E i \in DOMAIN a[p] : Tie(a[p][i], par)
+       IN \E p \in 1..2 : \E i \in DOMAIN a[p] : Tie(a[p][i], par) \/ Fragile(a[p][i])
 
 \* the state after T iterations from the documented initial state; draws = sequence over iterations
 RECURSIVE Run(_, _, _, _, _, _)
